@@ -237,7 +237,15 @@ func (c *controller) run(script []Step) {
 		c.version++
 		c.mu.Unlock()
 		if hold {
-			c.mux.RLock()
+			// never block the controller itself: if the lock cannot be had shortly (a writer
+			// that never unlocks is one of the things the run must survive and report), go on without
+			hold = false
+			for dl := time.Now().Add(20 * time.Millisecond); time.Now().Before(dl); time.Sleep(50 * time.Microsecond) {
+				if c.mux.TryRLock() {
+					hold = true
+					break
+				}
+			}
 		}
 		a.wake <- out
 		if hold {
